@@ -47,7 +47,12 @@ def linear_model(env):
     if env.sym:
         from pvc import storch as st
         st.set_external('autograd.functional.jacobian', lambda func, x, **kw: env.jacobian(func, x))
-        st.set_external('linalg.pinv', lambda M, **k: st.inverse(M))
+        def pinv(M, atol=None, rtol=None, hermitian=False, **k):
+            if atol is not None or rtol is not None:
+                from pvc.atoms import EngineGap
+                raise EngineGap('linalg.pinv called with an explicit singular-value cut-off: the assumed contract (= inverse for SPD arguments) does not cover it')
+            return st.inverse(M)
+        st.set_external('linalg.pinv', pinv)
         def chol(M, **k):
             a, b_, c = M[..., 0, 0], M[..., 1, 0], M[..., 1, 1]
             l00 = T.sqrt(a); l10 = b_ / l00; l11 = T.sqrt(c - l10 * l10)
@@ -158,6 +163,64 @@ def psd_runs(rng, tier):
         if k < 2: samples.append(dict(n=n, m=m))
     return dict(evaluations=evals, distinct_nontrivial=evals, rule='random stable linear systems n in 1..4, m in 1..3, SPD Q/R/P over 3 orders of magnitude; each filter step counted',
                 bound='n <= 4, m <= 3, runs of 10 (quick) / 50 steps', failures=fails[:6], samples=samples)
+
+
+@bounded('C13.kalman_comparison', functions=[f'{EKFM}:EKF.forward', f'{UKFM}:UKF.forward'])
+def kalman_numeric(rng, tier):
+    """real code (float64): one EKF / UKF step on random linear systems vs the exact Kalman predict-then-update posterior, dimensions 1..6,
+    SPD Q, R, P with eigenvalues spread over up to 6 orders of magnitude (anisotropic), any k > -n for the UKF"""
+    import torch, pypose as pp
+    d = torch.float64
+    N = 40 if tier == 'quick' else 400
+    fails = []; evals = 0; samples = []
+    g = torch.Generator().manual_seed(rng.randrange(1 << 30))
+    def spd(n, spread):
+        Qm, _ = torch.linalg.qr(torch.randn(n, n, dtype=d, generator=g))
+        ev = 10 ** (torch.rand(n, dtype=d, generator=g) * spread - spread / 2) * 10 ** rng.uniform(-2, 2)
+        return Qm @ torch.diag(ev) @ Qm.T
+    for t in range(N):
+        n, m, nu = rng.randrange(1, 7), rng.randrange(1, 7), rng.randrange(1, 4)
+        spread = rng.choice([0, 2, 4, 6])
+        A_, B_, C_, D_ = torch.randn(n, n, dtype=d, generator=g), torch.randn(n, nu, dtype=d, generator=g), torch.randn(m, n, dtype=d, generator=g), torch.randn(m, nu, dtype=d, generator=g)
+        c1, c2 = torch.randn(n, dtype=d, generator=g), torch.randn(m, dtype=d, generator=g)
+        class Lin(pp.module.NLS):
+            def state_transition(self, s, u, t=None): return s @ A_.T + u @ B_.T + c1
+            def observation(self, s, u, t=None): return s @ C_.T + u @ D_.T + c2
+        diagonal = rng.random() < 0.5
+        if diagonal:        # decoupled directions: round-off cannot mix scales, so an elementwise relative comparison is meaningful
+            m = n
+            A_ = torch.diag(torch.randn(n, dtype=d, generator=g)); C_ = torch.diag(1 + torch.rand(n, dtype=d, generator=g)); D_ = torch.randn(m, nu, dtype=d, generator=g)
+            c2 = torch.randn(m, dtype=d, generator=g)
+            dg = lambda k_: torch.diag(10 ** (torch.rand(k_, dtype=d, generator=g) * spread - spread / 2))
+            P, Qn, Rn = dg(n), dg(n), dg(m)
+        else:
+            P, Qn, Rn = spd(n, spread), spd(n, spread), spd(m, spread)
+        x, u, y = torch.randn(n, dtype=d, generator=g), torch.randn(nu, dtype=d, generator=g), torch.randn(m, dtype=d, generator=g)
+        xm = A_ @ x + B_ @ u + c1; Pm = A_ @ P @ A_.T + Qn
+        Sm = C_ @ Pm @ C_.T + Rn; K = torch.linalg.solve(Sm, C_ @ Pm).T
+        xs = xm + K @ (y - (C_ @ xm + D_ @ u + c2)); Ps = Pm - K @ Sm @ K.T
+        condS = float(torch.linalg.cond(Sm))
+        for name, run in (('EKF', lambda: pp.module.EKF(Lin(), Qn, Rn)(x, y, u, P)),
+                          ('UKF', lambda: pp.module.UKF(Lin(), Qn, Rn)(x, y, u, P, k=float(rng.choice([0.0, 1.0, 3.0 - n, 0.5]))))):
+            try:
+                xp, Pp = run()
+            except Exception as e:
+                fails.append(dict(clause=f'{name}_raises', signature=f'n={n},m={m},spread={spread}', error=f'{type(e).__name__}: {e}'[:160])); continue
+            evals += 1
+            if diagonal:
+                ex = float(((xp - xs).abs() / (1e-12 + xs.abs() + Pm.diagonal().sqrt())).max())
+                eP = float(((Pp.diagonal() - Ps.diagonal()).abs() / Ps.diagonal().abs()).max())
+                tol = 1e-8
+            else:
+                ex = float((xp - xs).abs().max()) / (1 + float(xs.abs().max())); eP = float((Pp - Ps).abs().max()) / float(Pm.abs().max())
+                tol = max(1e-9, 1e3 * condS * 2.2e-16)          # round-off of the (I - K C) P form grows with cond(S)
+            if ex > max(tol, 1e-9) * 10 or eP > tol:
+                fails.append(dict(clause=f'{name}_equals_kalman_posterior', signature=('diagonal' if diagonal else 'dense') + f'/spread=1e{spread}', n=n, m=m, err_mean=ex, err_cov=eP, condS=condS))
+        if t < 2: samples.append(dict(n=n, m=m, spread=spread))
+    uniq = {}
+    for f in fails: uniq.setdefault((f['clause'], f['signature']), f)
+    return dict(evaluations=evals, distinct_nontrivial=evals, rule='random linear systems, state/input/observation dims 1..6, covariances with eigenvalue spread 1..1e6; distinct by seed',
+                bound='dims <= 6, spread <= 1e6', failures=list(uniq.values())[:8], samples=samples)
 
 
 @obligation('C13.canary.wrong_gain', functions=[f'{EKFM}:EKF.forward'], canary=True, timeout=300)
